@@ -11,6 +11,6 @@ for f in sorted(os.listdir(d)):
         src = open(os.path.join(d, f)).read()
         src = re.sub(r"/-.*?-/", "", src, flags=re.S)
         names = re.findall(r"^theorem\s+([A-Za-z_][\w.']*)", src, flags=re.M)
-        out[f[:-5]] = [n for n in names if not n.startswith("ex")]
+        out[f[:-5]] = [n for n in names if not re.match(r"ex([A-Z0-9_]|$)", n)]
 json.dump(out, open(os.path.join(ROOT, "tools", "expected_theorems.json"), "w"), indent=1)
 print({k: len(v) for k, v in out.items()})
